@@ -265,7 +265,7 @@ func (p *parser) parseTokendef() *TokenDef {
 				Tag: Tag,
 				// noname need do for sepical.
 				Name:  genTempName(p.current.Value),
-				Value: int(p.current.Value[0]),
+				Value: charCode(p.current.Value),
 				IDTyp: TERMID,
 				Alias: p.current.Value,
 			}
@@ -320,7 +320,7 @@ func (p *parser) parsePrecList(Tklist *[]TokenDef) []PrecDef {
 			numbered := false
 			if p.current.Is(Charater) {
 				IdName = genTempName(IdName)
-				idvalue = int(p.current.Value[0])
+				idvalue = charCode(p.current.Value)
 			} else {
 				// a token number may follow the name, as on a %token line
 				p.next()
@@ -518,7 +518,7 @@ func (p *parser) parseRule(toklst *[]TokenDef) []RuleDef {
 					Tag: "",
 					// noname need do for sepical.
 					Name:  genTempName(p.current.Value),
-					Value: int(p.current.Value[0]),
+					Value: charCode(p.current.Value),
 					IDTyp: TERMID,
 					Alias: "",
 				}
